@@ -422,20 +422,48 @@ func program(r *mc.Run) func(x *mc.X) {
 						x.Failf("no-path-no-error", "no path offered but the round reported %v", off)
 					}
 				} else {
-					// one value per participant that succeeded: the last filter output of this round
-					var ms []measurements.Measurement
+					// one value per participant whose exchange succeeded (the last filter
+					// output of this round); failed participants contribute nothing. A
+					// participant that lost a later attempt hands in its result exactly at
+					// the deadline, where it may or may not be counted (C16): every subset
+					// of those is acceptable.
+					var sure, maybe []measurements.Measurement
 					for _, who := range part {
-						if len(fl[who].Calls) > nflt[who] && !dropped[who] {
+						if len(fl[who].Calls) > nflt[who] {
 							tu := fl[who].Calls[len(fl[who].Calls)-1]
-							ms = append(ms, measurements.Measurement{Offset: ntp.ClockOffset(tu.T0, tu.T1, tu.T2, tu.T3)})
+							m := measurements.Measurement{Offset: ntp.ClockOffset(tu.T0, tu.T1, tu.T2, tu.T3)}
+							if dropped[who] {
+								maybe = append(maybe, m)
+							} else {
+								sure = append(sure, m)
+							}
 						}
 					}
-					if len(ms) == len(part) && len(ms) > 0 {
-						if err != nil {
-							x.Failf("round-failed-although-all-paths-answered", "%v", err)
+					okResult := false
+					var wants []time.Duration
+					for mask := 0; mask < 1<<len(maybe); mask++ {
+						ms := append([]measurements.Measurement{}, sure...)
+						for i, m := range maybe {
+							if mask&(1<<i) != 0 {
+								ms = append(ms, m)
+							}
 						}
-						if wantOff := measurements.FaultTolerantMidpoint(ms).Offset; off != wantOff {
-							x.Failf("result-not-midpoint-of-participants", "round reported %v, fault-tolerant midpoint over one value per participant is %v", off, wantOff)
+						if len(ms) == 0 {
+							okResult = okResult || err != nil
+							continue
+						}
+						w := measurements.FaultTolerantMidpoint(ms).Offset
+						wants = append(wants, w)
+						okResult = okResult || (err == nil && off == w)
+					}
+					if !okResult {
+						switch {
+						case len(sure)+len(maybe) == 0:
+							x.Failf("round-succeeded-without-measurement", "no participant completed an exchange but the round reported offset %v without error", off)
+						case err != nil:
+							x.Failf("round-failed-although-paths-answered", "%d participants measured in time, round reported %v", len(sure), err)
+						default:
+							x.Failf("result-not-midpoint-of-participants", "round reported %v; fault-tolerant midpoint over one value per measuring participant (%d in time, %d at the deadline, %d took part) would be one of %v", off, len(sure), len(maybe), len(part), wants)
 						}
 					}
 				}
